@@ -428,3 +428,43 @@ V("c13-eq-imagery-loop", "C13", "E", IOO, '    imagery = Group(\n        "/image
 V("c13-imagery-reversed", "C13", "M", IOO, "data={group.name: group for group in imagery_groups}", "data={group.name: group for group in reversed(imagery_groups)}", "imagery")
 V("c13-leader-gets-volume-file", "C13", "M", IOO, 'open_sar_leader(mapper, filenames["sar_leader"])', 'open_sar_leader(mapper, filenames["volume_directory"])', "sar_leader")
 V("c20-sibling-coupling", ["C20", "C03"], "M", SMD, '"number_of_lines_per_burst": lambda v: v if v != -1 else [],', '"number_of_lines_per_burst": lambda v: v if v > 0 else [],', "number_of_lines_per_burst")
+
+# ---------------------------------------------------------------- third phase (DESIGN 11): planted positives for the new rules
+V("c19-acquire-no-finally", "C19", "M", XRP, "        with self.lock:\n            return self.array[key]", "        self.lock.acquire()\n        out = self.array[key]\n        self.lock.release()\n        return out", "C19-T5")
+V("c19-eq-acquire-finally", "C19", "E", XRP, "        with self.lock:\n            return self.array[key]", "        self.lock.acquire()\n        try:\n            return self.array[key]\n        finally:\n            self.lock.release()")
+V("c17-local-timestamp", "C17", "M", TRF, '    return dt.datetime.strptime(string, "%Y%m%d%H%M%S%f").isoformat()',
+  '    parsed = dt.datetime.strptime(string, "%Y%m%d%H%M%S%f")\n    return dt.datetime.fromtimestamp(parsed.timestamp()).isoformat()', "C17-M6")
+V("c17-fraction-cut", "C17", "M", TRF, '    return dt.datetime.strptime(string, "%Y%m%d%H%M%S%f").isoformat()',
+  '    return dt.datetime.strptime(string[:16], "%Y%m%d%H%M%S%f").isoformat()', "C17-M5")
+V("c10-mutable-default", ["C10", "C13"], "M", IOO, "def open(path, *, storage_options={}, create_cache=False, use_cache=True, records_per_chunk=1024):\n    mapper = fsspec.get_mapper(path, **storage_options)",
+  "def open(path, *, storage_options={}, create_cache=False, use_cache=True, records_per_chunk=1024, _seen=[]):\n    _seen.append(path)\n    mapper = fsspec.get_mapper(path, **storage_options)", "C10-W2")
+V("c12-numpy-attr", "C12", "M", SII, "        attrs={},\n    )", "        attrs={\"shape\": np.asarray(array_metadata[\"shape\"])},\n    )", "C12-Y10",
+  more=[(SII, "from ceos_alos2.array import Array", "import numpy as np\n\nfrom ceos_alos2.array import Array")])
+V("c07-hit-validated", "C07", "M", SII, "            return caching.read_cache(mapper, path, records_per_chunk=records_per_chunk)",
+  "            group = caching.read_cache(mapper, path, records_per_chunk=records_per_chunk)\n            if \"data\" not in group.variables:\n                raise CachingError(\"index without pixel variable\")\n            return group", "C07-G7")
+V("c07-root-casefold", "C07", "M", CPA, "    return cache_root / hashsum(remote_root) / cache_name", "    return cache_root / hashsum(remote_root.lower()) / cache_name", "C07-N2")
+V("c07-eq-root-encoded", "C07", "E", CPA, "    return cache_root / hashsum(remote_root) / cache_name", "    root_key = str(remote_root)\n    return cache_root / hashsum(root_key) / cache_name")
+V("c05-sniffed-count", ["C05", "C16"], "M", VOL, "file_descriptor[this.volume_descriptor.number_of_file_pointer_records]", "GreedyRange(file_descriptor)", "GreedyRange",
+  more=[(VOL, "from construct import Struct, this", "from construct import GreedyRange, Struct, this")])
+V("c02-rows-reversed-in-chunk", ["C02", "C01"], "M", ARR, "    return {key: [value for _, value in ranges] for key, ranges in grouped.items()}", "    return {key: [value for _, value in sorted(ranges)] for key, ranges in grouped.items()}", "output row")
+V("c11-read-whole-file", "C11", "M", ARR, "    f.seek(offset)\n\n    return f.read(size)", "    f.seek(0)\n\n    return f.read(offset + size)[offset:]", "C11-I")
+V("c06-rpc-plus-one", ["C06", "C11"], "M", SIO, "    n_chunks = math.ceil(n_records / records_per_chunk)", "    n_chunks = n_records // records_per_chunk + 1", "read_metadata")
+V("c18-eq-while-loop", ["C18", "C01", "C11"], "E", SIO, '''    raw_metadata = (
+        parse_chunk(f.read(chunksize * record_size), record_size) for chunksize in chunksizes
+    )
+    adjusted = (
+        adjust_offsets(records, offset=offset)
+        for records, offset in zip(raw_metadata, chunk_offsets)
+    )
+    metadata = list(concat(adjusted))
+''', '''    metadata = []
+    position = 0
+    while position < len(chunksizes):
+        records = parse_chunk(f.read(chunksizes[position] * record_size), record_size)
+        metadata.extend(adjust_offsets(records, offset=chunk_offsets[position]))
+        position += 1
+''')
+V("c15-day31", "C15", "M", DCD, '    return datetime.datetime.strptime(value, "%y%m%d")', '    if int(value[4:6]) > 30:\n        raise ValueError(f"invalid day: {value}")\n    return datetime.datetime.strptime(value, "%y%m%d")', "C15-L8")
+V("c15-eq-date-by-parts", "C15", "E", DCD, '    return datetime.datetime.strptime(value, "%y%m%d")', '    return datetime.datetime(2000 + int(value[:2]), int(value[2:4]), int(value[4:6]))')
+V("c14-first-error-only", "C14", "M", SUM, "            errors[lineno] = e\n", "            errors = {lineno: e}\n", "C14-S")
+V("c20-factor-int", "C20", "M", DTY, "        return obj * self.factor", "        return int(obj) * self.factor", "C20-P5")
